@@ -1800,6 +1800,17 @@ func main() {
 	if a.N > 0 {
 		nexec = a.N / 3
 	}
+	// fork cases: every (chain method, argument form) on a chain forked from a judged handle, every run
+	nfork, per := 60, 4
+	if a.Tier == "thorough" {
+		nfork = 400
+	}
+	if a.N > 0 {
+		nfork = a.N / 10
+	}
+	for i := 0; i < nfork; i++ {
+		add("fork", genFork(r.Fork(), i, per))
+	}
 	for i := 0; i < nexec; i++ {
 		add("exec", genExec(r.Fork()))
 	}
